@@ -217,7 +217,7 @@ def run(chk):
                 if ks != full and ks != der:
                     chk.violation(r_sl, "%s:%s:%s" % (fname, key, shape[:40]), "%s::%s updates slots %s with `%s`; expected every slot of %s exactly once, in order" % (fname, key, ks, shape, "0..N or 1..N"), s["file"], s["l"])
     # ---- dynamic
-    r_dyn = chk.rule("C16.dyn", "DynamicEvaluation.hpp has the members of the generic implementation and - except for the 13 construction/size members that handle the run-time size - identical statement lists, declarations included", floor=45)
+    r_dyn = chk.rule("C16.dyn", "DynamicEvaluation.hpp has the members of the generic implementation and - except for the 13 construction/size members that handle the run-time size (decided by C16.dynsize) - identical statement lists, declarations included", floor=45)
 
     DYN_DIFFERS = {
         "checkDefined_() const": "iterates the dynamic storage explicitly",
@@ -234,6 +234,144 @@ def run(chk):
         "operator-() const": "result must be sized like *this before it is overwritten",
         "size() const": "number of derivatives is data_.size() - 1",
     }
+
+    # ---- C16.mixed: scalar (op) Evaluation free operators reduce to the member form with the operands the right way round
+    r_mx = chk.rule("C16.mixed", "Evaluation.hpp free operators with the scalar on the left: a < b is b > a, a > b is b < a, a <= b is b >= a, a >= b is b <= a, a != b compares a with b's value, a + b and a * b are a copy of b updated with += a / *= a, a - b is -(b - a), a / b is Evaluation(a) /= b", floor=9)
+    MIXED = {
+        "operator<": ["return ($1 > $0)"], "operator>": ["return ($1 < $0)"], "operator<=": ["return ($1 >= $0)"], "operator>=": ["return ($1 <= $0)"],
+        "operator!=": ["return ($0 != $1.value())", "return ($1 != $0)", "return (!($1 == $0))", "return ($1.value() != $0)"],
+        "operator+": ["$r = ($1); ($r += $0); return $r", "return ($1 + $0)"],
+        "operator*": ["$r = ($1); ($r *= $0); return $r", "return ($1 * $0)"],
+        "operator-": ["return (-($1 - $0))", "$r = ($1); ($r -= $0); return (-$r)"],
+        "operator/": ["$r = ($0); ($r /= $1); return $r"],
+    }
+    for f in fx.fns:
+        if f.get("cls") or not f.get("body") or f["n"] not in MIXED or not f["file"].endswith("/Evaluation.hpp") or len(f["params"]) != 2:
+            continue
+        if "Evaluation" in f["params"][0]["t"] or "Evaluation" not in f["params"][1]["t"]:
+            continue
+        body = stmt_list(f["body"])
+        parts = []
+        loc = None
+        for s_ in body:
+            if s_["k"] == "Decl" and len(s_["vars"]) == 1 and isinstance(s_["vars"][0].get("init"), dict):
+                loc = s_["vars"][0]["n"]
+                ini = s_["vars"][0]["init"]
+                kids = ini.get("c") or ini.get("a") or []
+                parts.append("$r = (%s)" % (show(kids[0]) if len(kids) == 1 else show(ini)))
+            elif s_["k"] == "Return":
+                parts.append("return %s" % show(s_.get("e")))
+            else:
+                parts.append(show(s_))
+        txt = "; ".join(parts)
+        for i_, p_ in enumerate(f["params"]):
+            txt = re.sub(r"(?<![\w$.])%s\b" % re.escape(p_["n"]), "$%d" % i_, txt)
+        if loc:
+            txt = re.sub(r"(?<![\w$.])%s\b" % re.escape(loc), "$r", txt)
+        chk.instance(r_mx, f["n"], sample=dict(function=f["q"], line=f["l"], body=txt))
+        if txt not in MIXED[f["n"]]:
+            chk.violation(r_mx, f["n"], "scalar %s Evaluation is implemented as `%s` ($0: the scalar, $1: the Evaluation); the all-Evaluation form gives `%s`" % (f["n"][8:], txt, MIXED[f["n"]][0]), f["file"], f["l"])
+
+    # ---- C16.dynsize: the members that handle the run-time size, decided one by one instead of being exempted
+    r_ds = chk.rule("C16.dynsize", "DynamicEvaluation.hpp, run-time size: size() is data_.size() - 1 and length_() is data_.size(); the sized constructors allocate 1 + n entries, zero-filled where a value is given, set the value from their argument and (variable constructor) set entry varPos + dstart_() to 1; the create* factories pass the size of their Evaluation argument (or their count argument) first and their remaining arguments in order (createConstantZero/One: 0 and 1); unary minus negates all length_() entries of a copy of *this", floor=12)
+    from verif import symb as sy_
+
+    def cl(t):
+        return re.sub(r"Evaluation<[^>]*>", "Evaluation", re.sub(r"Opm::DenseAd::Evaluation<[^>]*>::", "", t))
+
+    def ptext(f, node):
+        t = cl(show(node))
+        for i_, p_ in enumerate(f["params"]):
+            if p_.get("n"):
+                t = re.sub(r"(?<![\w$.])%s\b" % re.escape(p_["n"]), "$%d" % i_, t)
+        return t
+
+    def pterm(f, node):
+        pn_ = [p_.get("n") for p_ in f["params"]]
+
+        def leaf(e):
+            m_, o_ = meth(e)
+            if m_ == "size" and o_ is not None and cl(show(o_)) in ("this.data_", "data_"):
+                return sy_.S("L")
+            if m_ == "size" and o_ is not None and strip(o_).get("k") == "Ref" and strip(o_).get("n") in pn_:
+                return sy_.S("size($%d)" % pn_.index(strip(o_)["n"]))
+            if e.get("k") in ("Call", "MCall") and cl(show(e)) in ("dstart_()", "this.dstart_()"):
+                return sy_.S("dstart")
+            if e.get("k") == "Ref" and e.get("d") == "Parm" and e.get("n") in pn_:
+                return sy_.S("$%d" % pn_.index(e["n"]))
+            return None
+        return sy_.Eval(leaf, set()).term(node, {})
+
+    def body_texts(f):
+        return [ptext(f, s_) for s_ in stmt_list(f["body"]) if "__assert_fail" not in show(s_) and cl(show(s_)).strip() not in ("checkDefined_()", "this.checkDefined_()")]
+    L_ = sy_.S("L")
+    dyn_all = [f for f in fx.fns if f["file"].endswith("DynamicEvaluation.hpp") and f.get("cls") == "Opm::DenseAd::Evaluation" and f.get("body") is not None]
+    n_ds = 0
+
+    def ds(key, f, ok, what, want):
+        nonlocal n_ds
+        n_ds += 1
+        chk.instance(r_ds, key, sample=dict(member=key, line=f["l"], found=what))
+        if not ok:
+            chk.violation(r_ds, key, "DynamicEvaluation::%s: %s; required: %s" % (key, what, want), f["file"], f["l"])
+    for f in dyn_all:
+        key = member_key(f)
+        body = stmt_list(f["body"]) if f.get("body") else []
+        if key in ("size() const", "length_() const"):
+            ret = [s_ for s_ in body if s_["k"] == "Return" and isinstance(s_.get("e"), dict)]
+            t = pterm(f, ret[0]["e"]) if len(ret) == 1 and len(body) == 1 else None
+            want = sy_.add(L_, sy_.I(-1)) if key.startswith("size") else L_
+            ds(key, f, t == want, "returns %s (L = data_.size())" % sy_.show_term(t), sy_.show_term(want))
+        elif f["n"].startswith("Evaluation<") and f["params"] and f["params"][0]["t"] == "int":
+            inits = [i_ for i_ in (f.get("inits") or []) if i_.get("member") == "data_"]
+            args = (inits[0]["init"].get("c") or inits[0]["init"].get("a") or []) if inits else []
+            t0 = pterm(f, args[0]) if args else None
+            ok = t0 == sy_.add(sy_.I(1), sy_.S("$0"))
+            found = "data_(%s)" % ", ".join(ptext(f, a_) for a_ in args)
+            bt = body_texts(f)
+            if len(f["params"]) >= 2:
+                ok = ok and len(args) == 2 and show(args[1]) in ("0", "0.0")
+                ok = ok and bt[:1] == ["this.setValue($1)"]
+            if len(f["params"]) == 3:
+                asg = [s_ for s_ in body if s_["k"] == "Bin" and s_.get("asg") and s_["op"] == "="]
+                idx_ok = False
+                if len(asg) == 1:
+                    lhs = strip(asg[0]["c"][0])
+                    ix = (lhs.get("c") or lhs.get("a") or [None, None])[1] if lhs.get("k") in ("Idx", "OpCall") else None
+                    idx_ok = ix is not None and pterm(f, ix) == sy_.add(sy_.S("$2"), sy_.S("dstart")) and show(asg[0]["c"][1]) in ("1", "1.0") and "data_" in show(lhs)
+                ok = ok and idx_ok and len(bt) == 2
+            elif len(f["params"]) == 2:
+                ok = ok and len(bt) == 1
+            else:
+                ok = ok and len(args) == 1 and not bt
+            ds(key, f, ok, "%s { %s }" % (found, "; ".join(bt)), "data_(1 + $0[, 0]) { setValue($1)[; data_[$2 + dstart_()] = 1] }")
+        elif f["n"] in ("createBlank", "createConstantZero", "createConstantOne", "createConstant", "createVariable") and f.get("static"):
+            if any(s_["k"] == "Throw" or "throw " in show(s_) for s_ in body):
+                continue
+            first = "size($0)" if "Evaluation" in f["params"][0]["t"] else "$0"
+            rest = {"createBlank": [], "createConstantZero": ["0"], "createConstantOne": ["1"]}.get(f["n"], ["$%d" % i_ for i_ in range(1, len(f["params"]))])
+            ok = False
+            found = "; ".join(ptext(f, s_) for s_ in body)
+            if len(body) == 1 and body[0]["k"] == "Return" and isinstance(body[0].get("e"), dict):
+                c = strip(body[0]["e"])
+                args = [a_ for a_ in (c.get("a") or c.get("c") or []) if a_.get("k") != "DefArg"]
+                if c.get("k") in ("Ctor", "InitList", "Temp", "Call", "?CXXUnresolvedConstructExpr", "UCtor") or "Evaluation" in cl(show(c))[:12]:
+                    a0 = pterm(f, args[0]) if args else None
+                    ok = a0 == sy_.S(first) and [ptext(f, a_) for a_ in args[1:]] == rest
+            ds(key, f, ok, found, "return Evaluation(%s)" % ", ".join([first] + rest))
+        elif key == "operator-() const":
+            loops_ = [s_ for s_ in body if s_["k"] == "For"]
+            ok = False
+            if len(loops_) == 1 and len(body) == 3 and body[0]["k"] == "Decl" and body[2]["k"] == "Return":
+                lp = loops_[0]
+                var = lp["init"]["vars"][0]["n"] if lp.get("init") and lp["init"]["k"] == "Decl" else None
+                res = body[0]["vars"][0]["n"]
+                lb = [cl(show(s_)) for s_ in stmt_list(lp["body"])]
+                ok = (var is not None and "(*this)" in show(body[0]["vars"][0].get("init")) and show(lp["init"]["vars"][0].get("init")) == "0"
+                      and cl(show(lp["cond"])) in ("(%s < length_())" % var, "(%s < this.length_())" % var) and show(lp.get("inc")) in ("(++%s)" % var, "(%s++)" % var)
+                      and lb == ["(%s.data_[%s] = (-this.data_[%s]))" % (res, var, var)] and show(body[2].get("e")) == res)
+            ds(key, f, ok, cl(show(f["body"]))[:200], "copy of *this; for i in 0..length_(): result.data_[i] = -data_[i]; return result")
+    chk.extra["dynsize_members"] = n_ds
 
     def full(f):
         out = []
@@ -262,7 +400,7 @@ def run(chk):
 
     # ---- C16.math
     r_m = chk.rule("C16.math", "every DenseAd math function sets each derivative slot from the same slot of its Evaluation arguments, exactly once, and the value from the scalar function of the same name", floor=20)
-    fm = chk.facts(["opm/material/components/H2.cpp"], files_re="^/repo/opm/material/densead/Math.hpp$", fn_re="^Opm::DenseAd::")
+    fm = chk.facts(["opm/material/components/H2.cpp"], files_re="^/repo/opm/material/densead/Math.hpp$", fn_re="^Opm::")
     for f in fm.fns:
         if not f["file"].endswith("Math.hpp") or not f.get("body") or f.get("cls"):
             continue
@@ -287,6 +425,8 @@ def run(chk):
                 chk.violation(r_m, key + ":once", "%s sets a derivative %d times per slot" % (f["n"], len(sets)), f["file"], lp["l"])
             if not re.search(r"\(%s < .*size\(\)\)" % var, bound or ""):
                 chk.violation(r_m, key + ":bound", "%s loops while %s; every slot 0..size()-1 must be written" % (f["n"], bound), f["file"], lp["l"])
+            if show(lp.get("inc")) not in ("(++%s)" % var, "(%s++)" % var, "(%s += 1)" % var):
+                chk.violation(r_m, key + ":step", "%s advances its derivative loop with %s; every slot 0..size()-1 must be written" % (f["n"], show(lp.get("inc"))), f["file"], lp["l"])
             init = show(lp["init"]["vars"][0].get("init")) if var else None
             if init != "0":
                 chk.violation(r_m, key + ":start", "%s starts its derivative loop at %s" % (f["n"], init), f["file"], lp["l"])
@@ -407,9 +547,96 @@ def run(chk):
     if missing:
         raise core.AnalysisBroken("Math.hpp: derivative factor not found for %s" % missing)
 
+    X2, Y2, dX2, dY2 = sy.S("X"), sy.S("Y"), sy.S("dX"), sy.S("dY")
+    # ---- C16.value: the value stored by every math function; the zero-base case of pow; the toolbox forwarders
+    r_val = chk.rule("C16.value", "DenseAd math functions (Math.hpp): the result's value is set exactly once, outside the derivative loop, to the scalar function of the same name applied to the values of the arguments in order (pow(scalar, Evaluation): exp(ln(base) x)); the three pow overloads single out base == 0 (result 0, no derivatives computed) and run the general code otherwise; every member of MathToolbox<Evaluation> named like a DenseAd function returns DenseAd::<that name>(its arguments in order)", floor=40)
+    n_val = 0
+    for f in fm.fns:
+        if not f["file"].endswith("Math.hpp") or not f.get("body") or f.get("cls") or not f["q"].startswith("Opm::DenseAd::"):
+            continue
+        pn = [p_["n"] for p_ in f["params"]]
+        evp = [p_["n"] for p_ in f["params"] if "Evaluation" in (p_.get("t") or "")]
+        loops = [n for n in walk(f["body"]) if n["k"] == "For" and "setDerivative" in show(n["body"])]
+        if not evp or not loops:
+            continue
+        key = "%s(%s)" % (f["n"], ",".join("E" if x in evp else "s" for x in pn))
+        in_loop = {id(c) for lp in loops for c in walk(lp)}
+        svs = [c for c in walk(f["body"]) if c["k"] in ("MCall", "Call") and meth(c)[0] == "setValue" and len(c.get("a") or []) == 1]
+        chk.instance(r_val, key + ":value", sample=dict(function=f["q"], setValue_calls=[c["l"] for c in svs]))
+        n_val += 1
+        if len(svs) != 1 or id(svs[0]) in in_loop:
+            chk.violation(r_val, key + ":value", "DenseAd::%s sets the value of its result %d time(s)%s: the result is a copy of an argument, so without exactly one setValue outside the derivative loop it carries the argument's value" % (key, len(svs), " (inside the derivative loop)" if svs and id(svs[0]) in in_loop else ""), f["file"], f["l"])
+            continue
+
+        def leaf_v(e, pn=pn, evp=evp):
+            m_, o_ = meth(e)
+            if m_ == "value" and o_ is not None and strip(o_).get("k") == "Ref" and strip(o_)["n"] in pn:
+                return (X2, Y2)[pn.index(strip(o_)["n"])]
+            if e.get("k") == "Ref" and e.get("d") == "Parm" and e.get("n") in pn and e["n"] not in evp:
+                return (X2, Y2)[pn.index(e["n"])]
+            if e.get("k") in ("Call", "MCall") and e.get("a") is not None:
+                nm = (e.get("m") or (e.get("fn") or "") or ((e.get("callee") or {}).get("n") or "")).split("::")[-1]
+                if nm and nm not in ("value", "derivative", "size"):
+                    args = [ev_v.term(a_, env_v) for a_ in e["a"]]
+                    if None not in args:
+                        return F(nm, *args)
+            return None
+        locs_v = {v["n"] for n in walk(f["body"]) if n["k"] == "Decl" for v in n["vars"]}
+        ev_v = sy.Eval(leaf_v, locs_v)
+        env_v = {}
+        for n in walk(f["body"]):
+            if n["k"] == "Decl" and id(n) not in in_loop:
+                for v in n["vars"]:
+                    if isinstance(v.get("init"), dict) and v["n"] != "result":
+                        env_v[v["n"]] = ev_v.term(v["init"], env_v)
+        got = ev_v.term(svs[0]["a"][0], env_v)
+        args_v = [(X2, Y2)[i] for i in range(len(pn))]
+        want_v = [F(f["n"], *args_v)]
+        if f["n"] == "pow" and pn[0] not in evp:
+            want_v.append(F("exp", sy.mul(F("log", X2), Y2)))
+        if got not in want_v:
+            chk.violation(r_val, key + ":value", "DenseAd::%s sets the value of its result to  %s  (X, Y: values of the arguments); the function value is  %s" % (key, sy.show_term(got), sy.show_term(want_v[0])), f["file"], svs[0]["l"])
+        if f["n"] == "pow":
+            ifs = [n for n in stmt_list(f["body"]) if n["k"] == "If"]
+            ok0 = False
+            for n in ifs:
+                c = strip(n["cond"])
+                is_eq = c.get("op") == "==" and len(c.get("c") or c.get("a") or []) == 2
+                if not is_eq:
+                    continue
+                a0, b0 = (c.get("c") or c.get("a"))
+                if not (strip(a0).get("k") == "Ref" and strip(a0)["n"] == pn[0] and show(b0) in ("0", "0.0")):
+                    continue
+                th, el = show(n["then"]), show(n.get("else")) if n.get("else") is not None else ""
+                ok0 = "(result = 0)" in th and "setDerivative" not in th and "setDerivative" in el
+            chk.instance(r_val, key + ":zero", sample=dict(function=f["q"], conditions=[show(n["cond"]) for n in ifs]))
+            n_val += 1
+            if not ok0:
+                chk.violation(r_val, key + ":zero", "DenseAd::%s: no statement `if (%s == 0) result = 0; else <general code>` at function level (conditions found: %s): the general formulas divide by the base / take its logarithm, and with the test inverted every non-zero base gives 0" % (key, pn[0], [show(n["cond"]) for n in ifs]), f["file"], f["l"])
+    dense_names = {f["n"] for f in fm.fns if f["q"].startswith("Opm::DenseAd::") and not f.get("cls")}
+    for f in fm.fns:
+        if not f.get("cls") or "MathToolbox" not in f["cls"] or f["n"] not in dense_names or not f.get("body"):
+            continue
+        pn = [p_["n"] for p_ in f["params"]]
+        key = "MathToolbox::%s@%d" % (f["n"], f["l"])
+        body = stmt_list(f["body"])
+        txt = show(body[0]) if len(body) == 1 else None
+        want_t = "return DenseAd::%s(%s)" % (f["n"], ", ".join(pn))
+        chk.instance(r_val, key, sample=dict(function=f["q"], body=txt))
+        n_val += 1
+        fwd = False
+        if len(body) == 1 and body[0]["k"] == "Return" and isinstance(body[0].get("e"), dict):
+            c = strip(body[0]["e"])
+            cal = c.get("callee") or {}
+            cname = (cal.get("qual") or "") + (cal.get("n") or c.get("fn") or "")
+            args_ = [strip(a_) for a_ in (c.get("a") or [])]
+            fwd = (c.get("k") == "Call" and cname.split("::")[-1] == f["n"] and "DenseAd" in cname
+                   and [a_.get("n") for a_ in args_ if a_.get("k") == "Ref"] == pn and len(args_) == len(pn))
+        if not fwd:
+            chk.violation(r_val, key, "MathToolbox<Evaluation>::%s does `%s`; it forwards to the free function of the same name with its arguments in order (`%s`)" % (f["n"], txt, want_t), f["file"], f["l"])
+
     # ---- C16.deriv2: functions of two arguments - the expression stored in each derivative slot, as a rational function
     r_d2 = chk.rule("C16.deriv2", "DenseAd functions of two arguments (Math.hpp atan2 in its three overloads, pow(Evaluation, Evaluation)): the expression stored in derivative slot i equals the total derivative  f_x dx_i + f_y dy_i  - atan2: (dx y - x dy)/(x^2 + y^2), pow: (g f'/f + ln f g') f^g - compared as rational functions of the values and slot-i derivatives of the arguments (a scalar argument has derivative 0)", floor=4)
-    X2, Y2, dX2, dY2 = sy.S("X"), sy.S("Y"), sy.S("dX"), sy.S("dY")
     seen_d2 = 0
     for f in fm.fns:
         if not f["file"].endswith("Math.hpp") or not f.get("body") or f.get("cls") or len(f["params"]) != 2:
